@@ -67,10 +67,32 @@ func c02Write(buf *codec.Buffer, c *c02Case) error {
 
 const sentinel = -77
 
+// alt selects the second set of initial values
+func sentI(alt bool) int64 {
+	if alt {
+		return -55
+	}
+	return sentinel
+}
+
+func sentU(alt bool) uint64 {
+	if alt {
+		return 201
+	}
+	return 177
+}
+
 // c02Read reads with reader type rt; absent is detected through a sentinel the reader must leave untouched.
 func c02Read(rd *codec.Reader, c *c02Case) {
-	c02Read1(rd, c)
-	c.Absent = !c.Err && c02IsSentinel(c)
+	c02Read1(rd, c, false)
+	c.Absent = !c.Err && c02IsSentinel(c, false)
+	if c.Absent && c.RT != "bool" {
+		// the sentinel is also a legal value (e.g. the byte 0xb3 read as -77): a field really is absent only if a second
+		// read of the same bytes leaves a different sentinel untouched as well
+		c2 := *c
+		c02Read1(codec.NewReader(rd.ToBytes()), &c2, true)
+		c.Absent = !c2.Err && c02IsSentinel(&c2, true)
+	}
 	if c.RT == "bool" && c.Absent { // the sentinel false is also a legal value: read again with the other initial value
 		rd2 := codec.NewReader(rd.ToBytes())
 		v := true
@@ -79,7 +101,7 @@ func c02Read(rd *codec.Reader, c *c02Case) {
 	}
 }
 
-func c02Read1(rd *codec.Reader, c *c02Case) {
+func c02Read1(rd *codec.Reader, c *c02Case, alt bool) {
 	t := byte(c.RTag)
 	var err error
 	c.Absent = false
@@ -94,43 +116,46 @@ func c02Read1(rd *codec.Reader, c *c02Case) {
 			c.OZ = 0
 		}
 	case "int8":
-		v := int8(sentinel)
+		v := int8(sentI(alt))
 		err = rd.ReadInt8(&v, t, c.Req)
 		c.OZ = int64(v)
 	case "uint8":
-		v := uint8(177)
+		v := uint8(sentU(alt))
 		err = rd.ReadUint8(&v, t, c.Req)
 		c.OZ = int64(v)
 	case "int16":
-		v := int16(sentinel)
+		v := int16(sentI(alt))
 		err = rd.ReadInt16(&v, t, c.Req)
 		c.OZ = int64(v)
 	case "uint16":
-		v := uint16(177)
+		v := uint16(sentU(alt))
 		err = rd.ReadUint16(&v, t, c.Req)
 		c.OZ = int64(v)
 	case "int32":
-		v := int32(sentinel)
+		v := int32(sentI(alt))
 		err = rd.ReadInt32(&v, t, c.Req)
 		c.OZ = int64(v)
 	case "uint32":
-		v := uint32(177)
+		v := uint32(sentU(alt))
 		err = rd.ReadUint32(&v, t, c.Req)
 		c.OZ = int64(v)
 	case "int64":
-		v := int64(sentinel)
+		v := int64(sentI(alt))
 		err = rd.ReadInt64(&v, t, c.Req)
 		c.OZ = v
 	case "f32":
-		v := math.Float32frombits(0x12345678)
+		v := math.Float32frombits(uint32(0x12345678 + sentU(alt) - 177))
 		err = rd.ReadFloat32(&v, t, c.Req)
 		c.OU = uint64(math.Float32bits(v))
 	case "f64":
-		v := math.Float64frombits(0x123456789abcdef0)
+		v := math.Float64frombits(0x123456789abcdef0 + sentU(alt) - 177)
 		err = rd.ReadFloat64(&v, t, c.Req)
 		c.OU = math.Float64bits(v)
 	case "string":
 		v := "\x00absent\x00"
+		if alt {
+			v = "\x00absent2\x00"
+		}
 		err = rd.ReadString(&v, t, c.Req)
 		c.OS = B(v)
 	}
@@ -140,20 +165,20 @@ func c02Read1(rd *codec.Reader, c *c02Case) {
 
 // whether the field was absent cannot be read off the API; the model decides it, and the harness
 // cross-checks with the sentinel: when the model says "absent" the observed value must be the sentinel.
-func c02IsSentinel(c *c02Case) bool {
+func c02IsSentinel(c *c02Case, alt bool) bool {
 	switch c.RT {
 	case "bool":
 		return c.OZ == 0
 	case "int8", "int16", "int32", "int64":
-		return c.OZ == sentinel
+		return c.OZ == sentI(alt)
 	case "uint8", "uint16", "uint32":
-		return c.OZ == 177
+		return c.OZ == int64(sentU(alt))
 	case "f32":
-		return c.OU == 0x12345678
+		return c.OU == 0x12345678+sentU(alt)-177
 	case "f64":
-		return c.OU == 0x123456789abcdef0
+		return c.OU == 0x123456789abcdef0+sentU(alt)-177
 	case "string":
-		return string(c.OS) == "\x00absent\x00"
+		return string(c.OS) == "\x00absent\x00" || (alt && string(c.OS) == "\x00absent2\x00")
 	}
 	return false
 }
